@@ -239,6 +239,17 @@ def check_reader(rep, prog, fn):
     mapvars = [v for v in (ex.var_of(n.c[1]) for n in nodes if n.k == 'CXXOperatorCallExpr' and n.op == '[]' and len(n.c) > 2)
                if v is not None and prog.rec_name(prog.vars[v]['ty']) in ('std::map', 'std::unordered_map')]
     mapvars = set(mapvars)
+    # a std::vector used as the vertex table: the container that receives the result of add_vertex
+    vecvars = set()
+    for n in nodes:
+        if n.k == 'BinaryOperator' and n.op == '=' and any(d.k == 'CallExpr' and d.callee and d.callee['g'] == 'boost::add_vertex' for d in n.c[1].walk()):
+            l = n.c[0].strip_all()
+            if l.k == 'CXXOperatorCallExpr' and l.op == '[]' and len(l.c) > 2:
+                v = ex.var_of(l.c[1])
+                if v is not None and prog.rec_name(prog.vars[v]['ty']) == 'std::vector':
+                    vecvars.add(v)
+    mapvars |= vecvars
+    fn._c10_vecvars = vecvars
 
     def missing_test(leaf, mvar, keyk):
         """formula atom 'missing' if leaf tests that keyk is absent from map mvar"""
@@ -259,6 +270,9 @@ def check_reader(rep, prog, fn):
     for rd in edge_region_reads:
         mvar = ex.var_of(rd.c[1])
         keyk = ex.key(rd.c[2])
+        if mvar in vecvars:
+            check_vector_read(rep, prog, fn, rd, mvar, p_scan)
+            continue
         whatc = 'vertex_map read `%s` only happens for a declared vertex' % rd.text(40)
         g = guards_formula(cfg, rd, lambda leaf: missing_test(leaf, mvar, keyk))
         if implies(g, ex.f_not(ex.f_atom('missing'))) and 'missing' in ex.f_atoms(g):
@@ -357,7 +371,7 @@ def check_reader(rep, prog, fn):
         # every a/e line reaches add_edge unless it throws: no other opaque guards
         opaque = [a for a in ex.f_atoms(g) if isinstance(a, tuple) and a[0] == 'opaque']
         opaque_nodes = [fn.nodes[a[1]] for a in opaque]
-        bad_opaque = [o for o in opaque_nodes if not is_lookup_guard(o) and not (
+        bad_opaque = [o for o in opaque_nodes if not is_lookup_guard(o) and not is_range_guard(o, vecvars, ints) and not (
             line_loop.cond is not None and (line_loop.cond.is_ancestor_of(o) or line_loop.cond.strip() is o))]
         # tests of the sscanf conversion count: judged over the counts a valid edge line can produce
         nconv = len(binds)
@@ -462,6 +476,89 @@ def count_guard_values(fn, cond, scan, counts):
     import operator
     f = {'<': operator.lt, '<=': operator.le, '>': operator.gt, '>=': operator.ge, '==': operator.eq, '!=': operator.ne}[op]
     return [f(k, c) for k in counts]
+
+
+def is_range_guard(n, vecvars, keyvars):
+    """a test of a scanned vertex id against the size of the vector vertex table / against constants (judged by R10c)"""
+    s = n.strip_all()
+    if not vecvars:
+        return False
+    mentions_key = any(d.k == 'DeclRefExpr' and d.decl_id in keyvars for d in s.walk())
+    other_vars = [d for d in s.walk() if d.k == 'DeclRefExpr' and d.decl is not None and d.decl.get('kind') in ('local', 'param') and
+                  d.decl_id not in keyvars and d.decl_id not in vecvars]
+    return mentions_key and not other_vars and s.k == 'BinaryOperator' and s.op in ('<', '<=', '>', '>=', '==', '!=')
+
+
+def check_vector_read(rep, prog, fn, rd, vvar, p_scan):
+    """R10c for a std::vector vertex table: abstract evaluation of the guards of `table[key]` for keys around the declared range"""
+    import itertools
+    cfg = fn.cfg
+    whatc = 'vertex table read `%s` only happens for a declared vertex (1..n) and happens for every declared vertex' % rd.text(40)
+    kv = ex.var_of(rd.c[2])
+    nvar = None
+    if p_scan is not None:
+        pints = [vid for (c, vid, a) in p_scan[2] if c[-1] in 'dui']
+        nvar = pints[0] if pints else None
+    sizes = [n for n in fn.walk() if n.k == 'CXXMemberCallExpr' and n.callee and n.callee['name'] in ('resize', 'assign') and
+             ex.var_of(n.object_arg()) == vvar and n.args()]
+    if kv is None or nvar is None or len(sizes) != 1:
+        rep.undecided('R10c', rd, fn, whatc, 'key is not a scanned variable, or the table is not sized by exactly one resize/assign')
+        return
+
+    def atomize(leaf):
+        if any(d.k == 'DeclRefExpr' and d.decl_id == kv for d in leaf.walk()):
+            return ex.f_atom(('rng', leaf.i))
+        return None
+    g = guards_formula(cfg, rd, atomize)
+    atoms = ex.f_atoms(g)
+    rng = [a for a in atoms if isinstance(a, tuple) and a[0] == 'rng']
+    free = [a for a in atoms if a not in rng]
+    if not rng:
+        rep.violation('R10c', rd, fn, whatc, 'the vertex table is indexed with an unchecked vertex id: an undeclared id reads outside the '
+                      'table or an unused slot instead of raising an error', key='R10c|%s|%s|unchecked' % (fn.g, prog.vars[vvar]['name']))
+        return
+    bad = None
+    try:
+        for nval in (1, 2, 5):
+            def bind0(s_, x=None):
+                return None
+            size_val = ex.ceval(sizes[0].args()[0], lambda s_: nval if ex.var_of(s_) == nvar else None)
+            for x in (-3, -1, 0, 1, nval, nval + 1, nval + 7):
+                def bind(s_):
+                    if s_.k == 'DeclRefExpr' and s_.decl_id == kv:
+                        return x
+                    if ex.var_of(s_) == nvar:
+                        return nval
+                    if s_.k == 'CXXMemberCallExpr' and s_.callee and s_.callee['name'] == 'size' and ex.var_of(s_.object_arg()) == vvar:
+                        return size_val
+                    return None
+                envv = {}
+                for a in rng:
+                    envv[a] = bool(ex.ceval(fn.nodes[a[1]], bind))
+                reachable = False
+                for vals in itertools.product((False, True), repeat=len(free)):
+                    e2 = dict(envv)
+                    e2.update(zip(free, vals))
+                    if ex.f_eval(g, e2):
+                        reachable = True
+                        break
+                declared = 1 <= x <= nval
+                if reachable and not declared:
+                    bad = ('vertex id %d is accepted although only 1..%d are declared: `%s` then reads %s instead of raising an error' % (
+                        x, nval, rd.text(30), 'the unused slot 0 of the table (a default descriptor, i.e. the first vertex)' if 0 <= x < size_val else 'outside the table'))
+                    break
+                if declared and not reachable:
+                    bad = 'the declared vertex id %d (n = %d) is rejected' % (x, nval)
+                    break
+            if bad:
+                break
+    except ex.Unknown as e:
+        rep.undecided('R10c', rd, fn, whatc, 'range guard could not be evaluated: %s' % e)
+        return
+    if bad:
+        rep.violation('R10c', rd, fn, whatc, bad, key='R10c|%s|%s|range' % (fn.g, prog.vars[vvar]['name']))
+    else:
+        rep.ok('R10c', rd, fn, whatc, 'guards evaluated for ids -3,-1,0,1,n,n+1,n+7 and n in {1,2,5}: exactly 1..n reach the read')
 
 
 def is_lookup_guard(n):
